@@ -642,6 +642,19 @@ func (e *Env) call(n *ast.CallExpr) *Val {
 		v := arg(0)
 		t := e.typeExpr(n.Args[1])
 		return c.unbox(nil, app("ival", v.Term), t)
+	case "ident":
+		// ident(x): an integer identifying the value x (equal values have equal identities)
+		v := arg(0)
+		srt := sortOf(v.T)
+		if srt == "Int" {
+			return intVal(v.Term)
+		}
+		if srt == "" {
+			fail("ident of composite")
+		}
+		fn := sym("ident." + srt)
+		c.declareFun(fn, []string{srt}, "Int")
+		return intVal(app(fn, v.Term))
 	case "uf":
 		// uf("name", x...): uninterpreted integer function (for facts about dependencies that are assumed)
 		lit, ok := n.Args[0].(*ast.BasicLit)
